@@ -6,6 +6,7 @@ from MIP.mip import datacard as DC
 from t4_geom_convert.Kernel.FileHandlers.Parser import ParseMCNPCell as PMC
 from t4_geom_convert.Kernel.FileHandlers.Parser.ParseMCNPCell import ParseMCNPCell, ParseMCNPCellError
 
+from MIP.geom import cells as MIPCELLS
 from pyvc.contract import contract
 from pyvc.interp import havoc
 from pyvc.sym import And, Or, Not, implies, iff, is_sym, ite
@@ -209,6 +210,34 @@ class _CellImp:
             yield 'from-the-data-card-by-position', result == imps[rank]
 
 
+_IMP_LAYOUTS = ['{name} {body}', '{name}  {body}  $ importances', '{name} {b1} &\n     {b2}', '{name} {b1}\n      {b2}',
+                '   {name} {body}']
+
+
+@contract(MIPCELLS.get_cell_importances, props=['C12'], name='cells.get_cell_importances', status='B')
+class _GetImp:
+    """IMP data cards are found among the other data cards whatever their spelling (case, particle list, leading
+    blanks, continuation lines, `$` comments) and handed over as the list of their tokens in order."""
+    scope = '4 card names x 3 token lists x 5 layouts, between other data cards'
+
+    def bounded(tier):
+        for name in ('imp:n', 'IMP:N', 'imp:n,p', 'Imp:P'):
+            for toks in (['1', '0'], ['1', '2r', '0'], ['1', '1', '3i', '5', '2m', '0']):
+                for layout in _IMP_LAYOUTS:
+                    yield {'name': name, 'toks': tuple(toks), 'layout': layout}
+
+    def call(name, toks, layout):
+        from contracts.c02 import _mip_of
+        half = max(1, len(toks) // 2)
+        card = layout.format(name=name, body=' '.join(toks), b1=' '.join(toks[:half]), b2=' '.join(toks[half:]))
+        text = f'title\n1 0 -7 \n2 0 7 \n\n7 so 1.\n\nm1 1001 2 8016 1\n{card}\nmode n p\nnps 10\n'
+        return dict(MIPCELLS.get_cell_importances(_mip_of(text)))
+
+    def ensures(result, name, toks, layout):
+        yield 'exactly-the-imp-card', [k.strip() for k in result] == [name.lower()]
+        yield 'tokens-in-order', list(result.values()) == [list(toks)]
+
+
 def _sweep_c12(tier, seed):
     from harness.sweeps import deck_sweep
     return deck_sweep('C12', tier, seed, families=('level0', 'fill'), n_quick=32, n_thorough=400)
@@ -224,5 +253,5 @@ EXPLANATION = {'C12': (
     'region of zero-importance cells, on generated flat and filled decks with importances on cards or on an IMP card.')}
 ASSUMPTIONS = {'C12': [
     'importances are non-negative, so max over particle types is zero iff all are zero',
-    'get_cell_importances (regex card splitting) is trusted',
+    'get_cell_importances (regex card splitting): bounded contract only',
 ]}
